@@ -2,7 +2,13 @@
 
 package encoder
 
-import "math"
+import (
+	"math"
+
+	"github.com/ozanh/ugo"
+	"github.com/ozanh/ugo/encoder/opv1"
+	"github.com/ozanh/ugo/internal/verifrt"
+)
 
 // Specification vocabulary for the //@ contracts in verif_contracts.go.
 
@@ -72,4 +78,89 @@ func specBoolRoundTrip(v Bool) bool {
 // verifGlobals: package-level variables initialised once and never reassigned.
 func verifGlobals() bool {
 	return errVarintTooSmall != nil && errVarintOverflow != nil
+}
+
+// ---------------------------------------------------------------------------
+// Version 1 converter (C11, C18)
+
+// specRowSum: total operand width of one row of an operand table (rows have
+// at most two entries).
+func specRowSum(w []int) int {
+	s := 0
+	if len(w) >= 1 {
+		s += w[0]
+	}
+	if len(w) >= 2 {
+		s += w[1]
+	}
+	return s
+}
+
+// specV1WidthTable: opWidth is the table convBytecodeV1ToV2 builds: one entry
+// per version 1 opcode, the sum of its operand widths.
+func specV1WidthTable(opWidth []int) bool {
+	return len(opWidth) == len(opv1.OpcodeOperands) && verifrt.Forall(func(op int) bool {
+		return !(0 <= op && op < len(opWidth)) || (opWidth[op] == specRowSum(opv1.OpcodeOperands[op]) && 0 <= opWidth[op] && opWidth[op] <= 4)
+	})
+}
+
+// specV1Widen: how many bytes an instruction grows in version 2 (2-byte
+// absolute targets became 4-byte ones: one for the jumps, two for SETUPTRY).
+func specV1Widen(op byte) int {
+	switch op {
+	case opv1.OpJump, opv1.OpJumpFalsy, opv1.OpAndJump, opv1.OpOrJump:
+		return 2
+	case opv1.OpSetupTry:
+		return 4
+	}
+	return 0
+}
+
+// specV1Link: the relocation table is consistent at instruction start k while
+// the table is being built up to offset upto (whose new offset will be
+// uptoPos): the opcode is known, the instruction ends at or before upto, and
+// the next start is k's new offset plus the instruction's version 2 length.
+func specV1Link(ins []byte, opWidth, newPos []int, k, upto, uptoPos int) bool {
+	op := ins[k]
+	if int(op) >= len(opWidth) || opWidth[op] < 0 || opWidth[op] > 4 {
+		return false
+	}
+	n := k + 1 + opWidth[op]
+	if n > upto {
+		return false
+	}
+	want := newPos[k] + 1 + opWidth[op] + specV1Widen(op)
+	if n == upto {
+		return uptoPos == want
+	}
+	return newPos[n] == want
+}
+
+// specV1Chain: the finished table at instruction start k.
+func specV1Chain(ins []byte, opWidth, newPos []int, k int) bool {
+	op := ins[k]
+	if int(op) >= len(opWidth) || opWidth[op] < 0 || opWidth[op] > 4 {
+		return false
+	}
+	n := k + 1 + opWidth[op]
+	return n <= len(ins) && newPos[n] == newPos[k]+1+opWidth[op]+specV1Widen(op)
+}
+
+// specV1JumpRows: the operand rows of the five jump-class opcodes in both
+// tables (version 1: 2-byte targets, version 2: 4-byte targets) and their
+// entries in the width table.
+func specV1JumpRows(opWidth []int) bool {
+	return specV1JumpRow(opWidth, opv1.OpJump) && specV1JumpRow(opWidth, opv1.OpJumpFalsy) &&
+		specV1JumpRow(opWidth, opv1.OpAndJump) && specV1JumpRow(opWidth, opv1.OpOrJump) &&
+		int(opv1.OpSetupTry) < len(opWidth) && opWidth[opv1.OpSetupTry] == 4 &&
+		len(opv1.OpcodeOperands[opv1.OpSetupTry]) == 2 &&
+		opv1.OpcodeOperands[opv1.OpSetupTry][0] == 2 && opv1.OpcodeOperands[opv1.OpSetupTry][1] == 2 &&
+		len(ugo.OpcodeOperands[opv1.OpSetupTry]) == 2 &&
+		ugo.OpcodeOperands[opv1.OpSetupTry][0] == 4 && ugo.OpcodeOperands[opv1.OpSetupTry][1] == 4
+}
+
+func specV1JumpRow(opWidth []int, op byte) bool {
+	return int(op) < len(opWidth) && opWidth[op] == 2 &&
+		len(opv1.OpcodeOperands[op]) == 1 && opv1.OpcodeOperands[op][0] == 2 &&
+		len(ugo.OpcodeOperands[op]) == 1 && ugo.OpcodeOperands[op][0] == 4
 }
